@@ -128,7 +128,7 @@ Section CursorRun.
 
   (* the file phase over C06's output, consumer holding hc ++ hf *)
   Lemma cursor_file_phase fuel cu j hc hf I later w lowest ps :
-    WOK U c w -> eventual_tip c w canon -> files_agree c w merged ->
+    WOK U c w -> eventual_tip c w canon ->
     (exists x, lnk x (hc ++ later)) -> (forall b, In b (hc ++ later) -> In b merged) ->
     (forall z r, hc ++ later = z :: r -> bnum z <= start) ->
     let fevs := map (C06_Spec.undo_event cu j) (rev hf) ++ map (file_event SIrr) I ++ map fev later in
@@ -136,7 +136,7 @@ Section CursorRun.
     exists st, sfold (rev (hc ++ hf)) (fst res) = Some st /\
       (snd res = JNil -> rev st = hc ++ later \/ (later <> [] /\ from_num start (rev st) = from_num start canon)).
   Proof.
-    intros HW Htip Hagr Hl Hin Hbot fevs res.
+    intros HW Htip Hl Hin Hbot fevs res.
     set (pre := map (C06_Spec.undo_event cu j) (rev hf) ++ map (file_event SIrr) I).
     assert (Hpre : Forall (fun e => matches_new (estep e) = false \/ bnum (eblk e) < lowest) pre).
     { apply Forall_app. split; apply Forall_forall; intros e He; apply in_map_iff in He as (x & <- & _); left; reflexivity. }
@@ -158,7 +158,7 @@ Section CursorRun.
              fuel (rev (hc ++ hf)) JNil later hc).
     - apply wok_after; assumption.
     - apply tip_after. exact Htip.
-    - apply joins_after. apply agree_joins; [exact U_id | exact U_uniq | exact U_up | exact Hmode2 | exact Hagr].
+    - apply joins_after. apply id_joins; [exact U_id | exact U_uniq | exact U_up | exact Hmerged_U | exact Hmode2].
     - rewrite rev_app_distr. apply sfold_pops.
     - exact Hl.
     - exact Hin.
@@ -215,7 +215,7 @@ Qed.
 
 Lemma c07_seamless_cursor_files_proof : C07_seamless_cursor_files.
 Proof.
-  intros U c w ps merged_end canon forked cu L rest hc hf Hwfb Hlok [[l [Hl Hhub]] Hrest] Hchain Hincl merged Htip Hagr
+  intros U c w ps merged_end canon forked cu L rest hc hf Hwfb Hlok [[l [Hl Hhub]] Hrest] Hchain Hincl merged Htip
          Hmode Hcur Hfilter Hstop Hbundle Hbound Hnoserve Hfrom HL (Hbr & Hon & Hoff & Hnu & Hu & Hfiles) res.
   assert (Hscope : disc_scope2_b U = true) by (unfold disc_scope2_b; rewrite Hwfb, Hlok; reflexivity).
   pose proof (bridge_id U Hwfb) as Hid. pose proof (bridge_uniq U Hwfb) as Huniq. pose proof (bridge_up U Hwfb) as Hup.
@@ -337,7 +337,7 @@ Proof.
       assert (Hz : In z (filter (fun b => bnum b <? merged_end) rest1)) by (rewrite Ez; left; reflexivity).
       apply filter_In in Hz as [Hz1 Hz2]. apply N.ltb_lt in Hz2. rewrite Forall_forall in Hall. specialize (Hall z Hz1). lia. }
     destruct (cursor_file_phase U c canon start Hid Huniq Hup Hdecl Hfilter Hstop HcU Hcl Hstartblk merged Hmode2 HmU
-                fuel cu (last hc L) hc hf I later w lowest ps HW Htip Hagr Hlk Hinm Hbot) as (st & Hst & Hfin).
+                fuel cu (last hc L) hc hf I later w lowest ps HW Htip Hlk Hinm Hbot) as (st & Hst & Hfin).
     exists st. split; [exact Hst|]. intros Hn. right. destruct (Hfin Hn) as [H|[Hne H]].
     - left. rewrite H, <- Erest'. unfold rest'. rewrite <- Habove. unfold above, merged. apply filter_comm.
     - right. destruct rest as [|r1 rest1].
